@@ -10,6 +10,8 @@ Nested reads used as arguments (stream.read(stream.read_compact_size())) come ou
 """
 import ast
 
+from . import terms
+
 from .astutil import dotted, call_name, unparse
 
 
@@ -69,8 +71,11 @@ def extract(func_node, stream_names):
                 t = expr_ops(s.test)
                 out.extend(t)
                 a, b = stmts_ops(s.body), stmts_ops(s.orelse)
+                term, pol = terms.atom(s.test)
+                if not pol:               # canonical orientation: the branch taken when the positive term holds comes first
+                    a, b = b, a
                 if a or b:
-                    out.append(("if", unparse(s.test), a, b))
+                    out.append(("if", term, a, b))
             elif isinstance(s, (ast.For, ast.AsyncFor)):
                 out.extend(expr_ops(s.iter))
                 body = stmts_ops(s.body)
@@ -122,3 +127,19 @@ def fmt(ops, depth=0):
         elif o[0] == "if":
             parts.append(f"if[{fmt(o[-2], depth + 1)} | {fmt(o[-1], depth + 1)}]")
     return " ; ".join(parts)
+
+
+def cond(text):
+    """canonical condition text of an ("if", cond, then, else) op for a test written in source form (positive form required)"""
+    term, pol = terms.atom(ast.parse(text, mode="eval").body)
+    if not pol:
+        raise ValueError(f"write the condition in its positive form: {text}")
+    return term
+
+
+def branch(op, text):
+    """(ops when `text` holds, ops otherwise) of an ("if", cond, a, b) op, `text` in either polarity; None if the op tests something else"""
+    term, pol = terms.atom(ast.parse(text, mode="eval").body)
+    if op is None or op[0] != "if" or op[1] != term:
+        return None
+    return (op[2], op[3]) if pol else (op[3], op[2])
